@@ -381,7 +381,8 @@ def fault_expr(rng, kind):
                            "(vector-ref (vector 1) 'x)", "(abs 'a)", "(apply + 1 2)", "(car (vector 1))"])
     if kind == "vector-index":
         return rng.choice(["(vector-ref (vector 1 2) 2)", "(vector-ref (vector 1 2) -1)", "(vector-set! (vector 1 2) 5 0)",
-                           "(vector-ref (vector) 0)", "(vector-ref '#(1 2 3) 3)"])
+                           "(vector-ref (vector) 0)", "(vector-ref '#(1 2 3) 3)", "(vector-set! (vector 1 2) -1 0)",
+                           "(vector-set! (make-vector 3 0) 3 1)", "(vector-ref (make-vector 2 0) 2)"])
     if kind == "literal-vector":
         return rng.choice(["(vector-set! '#(1 2) 0 9)", "(vector-set! #(1 2) 1 9)", "(vector-set! (car (list '#(1))) 0 2)"])
     if kind == "division-by-zero":
